@@ -1,4 +1,5 @@
 """The XPath checks C05, C06, C07, C08, C10, C19 (shared machinery; thin per-property modules call `run_<id>`)."""
+import os
 import random
 import time
 import lib
@@ -336,6 +337,27 @@ def run_c06(chk):
                 cy = y if y.startswith("err") else "ok"
                 if cx != cy and not (classify_ns(e, x, y)):
                     tdis.append((t, e, cx, cy))
+    # ---- hostile sizes on the real code only: nesting far beyond the limit read from the source (MAX_EXPR_DEPTH) and long
+    # flat expressions must end in a value or an error - never in an abort (stack exhaustion) or a timeout
+    h0 = lib.build_harness()
+    hostile = []
+    lim = None
+    try:
+        import re as _re
+        m_ = _re.search(r"const MAX_EXPR_DEPTH: usize = (\d+);", open(os.path.join(lib.REPO, "xpath/src/expr/mod.rs")).read())
+        lim = int(m_.group(1)) if m_ else None
+    except OSError:
+        pass
+    hsizes = sorted(set([200, 3000] + ([lim, lim + 1, lim + 2, 3 * lim] if lim else [])))
+    for name in fams:
+        for k in hsizes:
+            e = fams[name](k)
+            out = lib.run_lines(h0, [lib.req("query", "<r><a><a><a/></a></a></r>", "", e)], timeout=60)[0].split(" || ")[0]
+            hostile.append((name, k, out if out in BAD or out.startswith("err") else "ok"))
+            chk.count(["hostile", name, k], nontrivial=True)
+            if out in BAD:
+                bad.append(("<r><a><a><a/></a></a></r>", "hostile:%s:%d" % (name, k), e if len(e) < 400 else "family %s(%d) of xp_families()" % (name, k), out))
+    chk.cov["hostile_sizes"] = hostile
     # ---- growth: time(2n) / time(n) on the real code
     h = lib.build_harness()
     growth = {}
